@@ -33,6 +33,8 @@ TRACE_CFG = "SPECIFICATION TraceSpec\nCONSTANTS\n  Files = {}\nINVARIANT Accepte
 # ---------------------------------------------------------------------------- rendering
 def render_line(ln, rng, last=False):
     sp = lambda: rng.choice([' ', '  ', '\t', '   '])
+    # between the words of a comment also: form feed, line separator, NEL - white space, but not ends of line
+    cw = lambda words: ''.join(w if i == 0 else rng.choice([' ', ' ', ' ', '\x0c', '\u2028', '\x85']) + w for i, w in enumerate(words))
     k = ln['k']
     if k == 'sec':
         s = rng.choice(['[ %s ]', '[%s]', '[  %s  ]', '[ %s ]   ']) % ln['t'][0]
@@ -42,11 +44,11 @@ def render_line(ln, rng, last=False):
         # directives inside #ifdef blocks are often indented in hand-written topologies
         s = (rng.choice(['  ', '\t', '    ']) if ln.get('indent') else '') + ' '.join(ln['t'])
     elif k == 'comm':
-        s = rng.choice([';', '; ', ' ; ']) + ' ; '.join(' '.join(c) for c in ln['c'])
+        s = rng.choice([';', '; ', ' ; ']) + ' ; '.join(cw(c) for c in ln['c'])
     else:
         s = rng.choice(['', ' ', '    ']) + sp().join(ln['t'])
         if ln['c']:
-            s += rng.choice([' ;', ';', '  ; ']) + ' ' + ' ; '.join(' '.join(c) for c in ln['c'])
+            s += rng.choice([' ;', ';', '  ; ']) + ' ' + ' ; '.join(cw(c) for c in ln['c'])
             if not any(ln['c']):
                 s = s.rstrip() if rng.random() < 0.5 else s
     return s + ('' if last else '\n')
@@ -286,7 +288,7 @@ def random_topology(rng, n, graph_kind):
         for b in bonds:
             if assign[b] == bi:
                 a, c = (b if rng.random() < 0.5 else b[::-1])
-                toks = [str(nrs[a]), str(nrs[c])] + rng.choice([[], ['1'], ['1', '0.47', '1250']])
+                toks = [str(nrs[a]), str(nrs[c])] + rng.choice([[], ['1'], ['1', '0.47', '1250'], ['2', '0.31'], ['6', '0.4', '500'], ['5']])   # any function type
                 f.append({'k': 'cont', 't': toks, 'c': [] if rng.random() < 0.8 else [['b']]})
             if rng.random() < 0.03:
                 f.append({'k': 'comm', 't': [], 'c': [['x']]})
